@@ -55,6 +55,19 @@ pub fn round_trip(xot: &mut Xot, root: xot::Node, expected: &A, fragment: bool, 
     };
     let got = norm(&read(xot, node));
     let exp = norm(expected);
+    // "declarations survive on the same elements with the same bindings": every declaration of the original must
+    // be there with its value; additional declarations written by the serialiser are tolerated here (names are
+    // compared by expanded name, so a wrong extra declaration would show up as a changed name)
+    fn keep_expected_decls(exp: &A, got: &A) -> A {
+        let mut g = got.clone();
+        g.nss.retain(|d| exp.nss.iter().any(|e| e.name == d.name));
+        g.ch = got.ch.iter().enumerate().map(|(i, c)| match exp.ch.get(i) {
+            Some(e) if e.k == c.k => keep_expected_decls(e, c),
+            _ => c.clone(),
+        }).collect();
+        g
+    }
+    let got = keep_expected_decls(&exp, &got);
     if let Some(d) = diff_class(&exp, &got) {
         fails.push(Fail::new(format!("roundtrip|{}|{}", route, d), format!("{} serialised as {:?} reparsed as {}", expected.show(), text, got.show())));
     } else {
